@@ -39,11 +39,30 @@ pub struct XargsScenario {
     pub rlimit_stack: Option<u64>,
     /// None = leave the worker's (small, fixed) environment alone
     pub env: Option<Vec<(String, String)>>,
+    /// pass-through mode: children are real processes (see `RealKind`)
+    #[serde(default)]
+    pub real: Option<RealKind>,
     pub note: String,
+}
+
+/// What really runs in pass-through mode. `cmd[0]` of the scenario is then a
+/// placeholder that the executor replaces.
+#[derive(Clone, Debug, PartialEq, Eq, Serialize, Deserialize)]
+pub enum RealKind {
+    /// `simchild LOG SCRIPT initial-args…`: logs argv/cwd, ends as `outcomes` says
+    Simchild,
+    /// a path that does not exist
+    Missing,
+    /// an existing file without execute permission
+    NotExecutable,
 }
 
 impl XargsScenario {
     pub fn argv(&self) -> Vec<String> {
+        self.argv_with(&self.cmd)
+    }
+
+    pub fn argv_with(&self, cmd: &[String]) -> Vec<String> {
         let mut v = vec!["xargs".to_string()];
         for o in &self.opts {
             match o {
@@ -76,7 +95,7 @@ impl XargsScenario {
                 Opt::Raw(xs) => v.extend(xs.iter().cloned()),
             }
         }
-        v.extend(self.cmd.iter().cloned());
+        v.extend(cmd.iter().cloned());
         v
     }
 }
@@ -85,6 +104,10 @@ pub struct XargsObs {
     pub status: RunStatus,
     pub log: Log,
     pub stderr: Vec<u8>,
+    /// command and initial arguments actually used (placeholders resolved)
+    pub cmd: Vec<String>,
+    /// pass-through mode: what the real children logged (argv after LOG SCRIPT, cwd)
+    pub child_log: Option<Vec<(Vec<Vec<u8>>, Vec<u8>)>>,
 }
 
 impl XargsObs {
@@ -118,15 +141,65 @@ pub fn run_xargs_with(sc: &XargsScenario, plan: &[ReadOp], ctx: &mut Ctx) -> Xar
         sticky_err: None,
         budget: READ_BUDGET,
     };
+    // pass-through mode: resolve the placeholder command
+    let mut cmd = sc.cmd.clone();
+    let mut log_path = None;
+    if let Some(kind) = &sc.real {
+        let dir = ctx.scratch.join("x");
+        crate::sys::wipe(&dir);
+        let _ = std::fs::create_dir_all(&dir);
+        match kind {
+            RealKind::Simchild => {
+                let lp = dir.join("child.log");
+                let sp = dir.join("child.script");
+                let mut script = String::new();
+                for o in &sc.outcomes {
+                    match o {
+                        Outcome::Exit(c) => script.push_str(&format!("exit {c}\n")),
+                        Outcome::Signal(s, _) => script.push_str(&format!("signal {s}\n")),
+                        _ => script.push_str("exit 0\n"),
+                    }
+                }
+                let _ = std::fs::write(&sp, script);
+                let mut c = vec![
+                    ctx.simchild.to_string_lossy().into_owned(),
+                    lp.to_string_lossy().into_owned(),
+                    sp.to_string_lossy().into_owned(),
+                ];
+                c.extend(sc.cmd.iter().skip(1).cloned());
+                cmd = c;
+                log_path = Some(lp);
+            }
+            RealKind::Missing => {
+                cmd[0] = dir.join("no-such-command").to_string_lossy().into_owned();
+            }
+            RealKind::NotExecutable => {
+                let p = dir.join("not-executable");
+                let _ = std::fs::write(&p, b"#!/bin/sh\nexit 0\n");
+                use std::os::unix::fs::PermissionsExt;
+                let _ = std::fs::set_permissions(&p, std::fs::Permissions::from_mode(0o644));
+                cmd[0] = p.to_string_lossy().into_owned();
+            }
+        }
+    }
     let world = SimWorld {
         log: log.clone(),
-        outcomes: sc.outcomes.clone(),
+        outcomes: if sc.real.is_some() {
+            vec![]
+        } else {
+            sc.outcomes.clone()
+        },
+        default_outcome: if sc.real.is_some() {
+            Outcome::Real
+        } else {
+            Outcome::Exit(0)
+        },
         spawn_count: 0,
         spawn_budget: SPAWN_BUDGET,
         input: Some(stream),
         on_spawn: None,
     };
-    let argv = sc.argv();
+    let argv = sc.argv_with(&cmd);
     let (status, stderr) = ctx.run_guarded(Box::new(world), move || {
         let refs: Vec<&str> = argv.iter().map(|s| s.as_str()).collect();
         findutils::xargs::xargs_main(&refs)
@@ -134,11 +207,71 @@ pub fn run_xargs_with(sc: &XargsScenario, plan: &[ReadOp], ctx: &mut Ctx) -> Xar
     let log = Rc::try_unwrap(log)
         .map(|c| c.into_inner())
         .unwrap_or_else(|rc| std::mem::take(&mut *rc.borrow_mut()));
+    let child_log = log_path.map(|p| parse_child_log(&std::fs::read(p).unwrap_or_default()));
     XargsObs {
         status,
         log,
         stderr,
+        cmd,
+        child_log,
     }
+}
+
+/// Parse simchild's log: records of (args, cwd).
+pub fn parse_child_log(data: &[u8]) -> Vec<(Vec<Vec<u8>>, Vec<u8>)> {
+    let mut out = vec![];
+    let mut p = 0usize;
+    let read_line = |p: &mut usize| -> Option<Vec<u8>> {
+        let start = *p;
+        while *p < data.len() && data[*p] != b'\n' {
+            *p += 1;
+        }
+        if *p >= data.len() {
+            return None;
+        }
+        let l = data[start..*p].to_vec();
+        *p += 1;
+        Some(l)
+    };
+    let read_sized = |p: &mut usize| -> Option<Vec<u8>> {
+        let start = *p;
+        while *p < data.len() && data[*p] != b':' {
+            *p += 1;
+        }
+        let n: usize = std::str::from_utf8(&data[start..*p]).ok()?.parse().ok()?;
+        *p += 1;
+        if *p + n > data.len() {
+            return None;
+        }
+        let v = data[*p..*p + n].to_vec();
+        *p += n + 1; // trailing newline
+        Some(v)
+    };
+    while p < data.len() {
+        let Some(l) = read_line(&mut p) else { break };
+        let Some(argc) = std::str::from_utf8(&l)
+            .ok()
+            .and_then(|l| l.strip_prefix("ARGC "))
+            .and_then(|n| n.parse::<usize>().ok())
+        else {
+            break;
+        };
+        let mut args = vec![];
+        for _ in 0..argc {
+            match read_sized(&mut p) {
+                Some(a) => args.push(a),
+                None => return out,
+            }
+        }
+        if !data[p..].starts_with(b"CWD ") {
+            break;
+        }
+        p += 4;
+        let Some(cwd) = read_sized(&mut p) else { break };
+        let _ = read_line(&mut p); // END
+        out.push((args, cwd));
+    }
+    out
 }
 
 // ---------------------------------------------------------------------------
@@ -489,18 +622,22 @@ pub fn is_fatal(o: &Outcome) -> Option<i32> {
 
 /// Full reference run.
 pub fn expect(sc: &XargsScenario, cfg: &Config, spec: &TokSpec) -> Expect {
+    expect_with(sc, &sc.cmd, cfg, spec)
+}
+
+pub fn expect_with(sc: &XargsScenario, cmd: &[String], cfg: &Config, spec: &TokSpec) -> Expect {
     let mut e = Expect::default();
     if cfg.usage_error {
         e.own_error = Some("usage");
         e.exit = 1;
         return e;
     }
-    let cmd_bytes: Vec<Vec<u8>> = sc.cmd.iter().map(|c| c.as_bytes().to_vec()).collect();
+    let cmd_bytes: Vec<Vec<u8>> = cmd.iter().map(|c| c.as_bytes().to_vec()).collect();
     let mut planned: Vec<Vec<Vec<u8>>> = vec![];
     let mut own_error = None;
     match &cfg.mode {
         Mode::Batch => {
-            let (ranges, err) = ref_batches(cfg, &sc.cmd, &spec.toks);
+            let (ranges, err) = ref_batches(cfg, cmd, &spec.toks);
             own_error = err;
             for (a, b) in &ranges {
                 let mut argv = cmd_bytes.clone();
